@@ -56,6 +56,9 @@ pub struct Case {
     #[serde(default)]
     pub late: Vec<(Api, u64)>,
     pub after: Api,
+    /// `server.lock.host`: 0 = default, 1 = "localhost", 2 = "127.0.0.1"
+    #[serde(default)]
+    pub lock_host: u8,
 }
 
 fn api() -> impl Strategy<Value = Api> {
@@ -76,14 +79,16 @@ pub fn strategy() -> impl Strategy<Value = Case> {
         vec((api(), 0u64..60), 1..=7),
         vec((api(), 110u64..400), 0..=2),
         api(),
+        prop_oneof![2 => Just(0u8), 1 => Just(1u8), 1 => Just(2u8)],
     )
-        .prop_map(|(race, holder, termination, contenders, late, after)| Case {
+        .prop_map(|(race, holder, termination, contenders, late, after, lock_host)| Case {
             race,
             holder,
             termination,
             contenders,
             late,
             after,
+            lock_host,
         })
 }
 
@@ -232,6 +237,11 @@ fn check_exclusion(points: &[PointLine], killed: Option<(u32, u128)>) -> Result<
 pub fn check(case: &Case, w: usize) -> CheckResult {
     let cfg = ConfigSpec {
         targets: vec![TargetSpec::new("t0"), TargetSpec::new("t1")],
+        lock_host: match case.lock_host {
+            1 => Some("localhost".into()),
+            2 => Some("127.0.0.1".into()),
+            _ => None,
+        },
         ..Default::default()
     };
     let mut env = Env::new(w);
@@ -466,13 +476,18 @@ pub fn check(case: &Case, w: usize) -> CheckResult {
         .class_if(holders_a >= 2, "race-with>=2-winners")
         .class_if(holders_b >= 2, "phaseB-with>=2-holders")
         .class_if(had_late, "late-contenders")
+        .class(match case.lock_host {
+            1 => "lock-host=localhost",
+            2 => "lock-host=127.0.0.1",
+            _ => "lock-host=default",
+        })
         .inv(env.invocations))
 }
 
 pub fn run(ctx: &mut Ctx) {
     ctx.hang_limit = Duration::from_secs(400);
     ctx.shrink_budget = Duration::from_secs(30);
-    ctx.rule = "phase A: 2-8 invocations drawn from {run, checkpoint update, update -p, checkpoint delete, out delete --all} sharing one lock address, started with offsets 0-100 ms. \
+    ctx.rule = "phase A: 2-8 invocations drawn from {run, checkpoint update, update -p, checkpoint delete, out delete --all} sharing one lock address (host default / `localhost` / `127.0.0.1`), started with offsets 0-100 ms. \
 phase B: a holder kept inside its critical section (a `run` whose helper blocks on a gate, or any of the APIs delayed at the `lock.held` point right after it obtained its lock guard), 1-7 contenders started while it is inside, \
 0-2 late contenders started 110-400 ms before the holder ends, holder termination by normal exit, failing run or SIGKILL, then one more invocation. oracle: (i) from the point log, [lock.acquired, lock.release] intervals of different processes never overlap (a killed \
 holder's interval ends at a time stamp taken before the kill); (ii) a process that never acquired, and every contender that ran while the holder was provably inside, ends non-zero with a lock error, \
